@@ -8,6 +8,7 @@ import Cgp.GatewaySpec
 import Cgp.Proofs.C02
 import Cgp.Proofs.C16
 import Cgp.Props.C01
+import Cgp.Toy
 namespace Cgp.Props.C16
 open Cgp Cgp.Xdr Cgp.Gateway Cgp.Executable
 open Cgp.Proofs.C02 Cgp.Proofs.C16
@@ -336,5 +337,24 @@ theorem app_effect_was_signed (owner operator : Addr) (domain : Bytes) (minDelay
   · rw [h0] at h1; cases h1
   · exact h1
 
+
+/-! ### non-vacuity (the model RUN in the kernel on a concrete history, toy hash) -/
+section NonVacuity
+open Cgp.Toy
+
+def app0 : Addr := ⟨true, List.replicate 32 9⟩
+def mA : Message := ⟨[97], [49], [98], app0, H0 [1, 2, 3]⟩
+
+/-- the hypotheses of `app_effect_was_signed` are satisfiable, and exactly-once is visible: on a freshly constructed gateway
+    a signed approval, then a delivery that takes effect, then the same delivery again, which does not -/
+theorem app_effect_was_signed_nonvacuous :
+    ∃ g0, constructed H0 owner0 owner0 [1] 0 0 [ws0] 5 = some g0 ∧
+      ((xtrace H0 V0 ⟨g0, fun _ => []⟩
+          [.gw (.approve [mA] pf0), .deliver app0 [97] [49] [98] [1, 2, 3], .deliver app0 [97] [49] [98] [1, 2, 3]]).map (·.2.2))
+        = [false, true, false] := by
+  refine ⟨_, rfl, ?_⟩
+  decide +kernel
+
+end NonVacuity
 
 end Cgp.Props.C16
